@@ -502,3 +502,81 @@ func VerifC39_raw_headerblock() {
 		vrt.Assert(len(h) <= int(nh), "C39/raw-block-count")
 	}
 }
+
+// ---------------------------------------------------------------------------------------------
+// (d) two frames in a row: a header-bearing frame whose block the reader may reject, then a PING
+
+// headerVerdictC39: the reader's verdict is about the CONTENT of a header block that was present in
+// full (per-stream protocol errors that carry the stream id; the Framer stays usable, SPDY/3 2.4.2) -
+// as opposed to I/O errors and malformed lengths, after which the stream position means nothing.
+func headerVerdictC39(err error) bool {
+	e, ok := err.(*Error)
+	if !ok {
+		return false
+	}
+	return e.Err == UnlowercasedHeaderName || e.Err == DuplicateHeaders || e.Err == InvalidHeaderPresent
+}
+
+// VerifC39_seq_headers_then_ping: raw bytes of one SYN_STREAM / SYN_REPLY / HEADERS frame whose
+// declared length equals its structure (H = 2 headers, each a name of 1 symbolic ASCII byte - any of
+// the 128 values, so upper case and equal names occur - and a value of 1 symbolic ASCII byte),
+// followed by the 12 bytes of a PING with a symbolic id. Whatever the verdict on the first frame
+// (accepted, or its header block rejected for its content), the reader must have consumed exactly
+// that frame, and the next ReadFrame must return the PING: no frame boundary is lost.
+func VerifC39_seq_headers_then_ping() {
+	kind := vrt.Choose("frame", 3)
+	sid := streamIdC39()
+	var body []byte
+	put32 := func(v uint32) {
+		body = append(body, byte(v>>24), byte(v>>16), byte(v>>8), byte(v))
+	}
+	put32(uint32(sid))
+	ftype := ControlFrameType(TypeSynReply)
+	switch kind {
+	case 0:
+		ftype = TypeSynStream
+		put32(0)                  // associated-to stream id
+		body = append(body, 0, 0) // priority, slot
+	case 2:
+		ftype = TypeHeaders
+	}
+	H := vrt.Param("H", 2)
+	put32(uint32(H))
+	for i := 0; i < H; i++ {
+		nv := vrt.Bytes("namevalue", 2)
+		vrt.Assume(nv[0] < 0x80 && nv[1] < 0x80)
+		put32(1)
+		body = append(body, nv[0])
+		put32(1)
+		body = append(body, nv[1])
+	}
+	frame1 := []byte{0x80, 0x03, byte(ftype >> 8), byte(ftype), 0, byte(len(body) >> 16), byte(len(body) >> 8), byte(len(body))}
+	frame1 = append(frame1, body...)
+	pingId := vrt.U32("pingId")
+	vrt.Assume(pingId != 0)
+	ping := []byte{0x80, 0x03, 0, byte(TypePing), 0, 0, 0, 4, byte(pingId >> 24), byte(pingId >> 16), byte(pingId >> 8), byte(pingId)}
+	w := &wireC39{data: append(append([]byte{}, frame1...), ping...)}
+	f := newFramerC39(w)
+
+	_, err := f.ReadFrame()
+	if err != nil {
+		if !headerVerdictC39(err) {
+			vrt.Cover("C39/seq-first-frame-other-error")
+			return
+		}
+		vrt.Cover("C39/seq-first-frame-rejected")
+	} else {
+		vrt.Cover("C39/seq-first-frame-accepted")
+	}
+	vrt.Assert(w.pos == len(frame1), "C39/seq-boundary-after-first-frame")
+	fr2, err2 := f.ReadFrame()
+	vrt.Assert(err2 == nil, "C39/seq-next-frame-read")
+	if err2 == nil {
+		p, ok := fr2.(*PingFrame)
+		vrt.Assert(ok, "C39/seq-next-frame-intact")
+		if ok {
+			vrt.Assert(p.Id == pingId, "C39/seq-next-frame-intact")
+		}
+	}
+	vrt.Assert(w.pos == len(w.data), "C39/seq-boundary-after-second-frame")
+}
